@@ -47,6 +47,7 @@ struct Counters {
 };
 static Counters C;
 static std::vector<uint8_t> g_last_fail;
+static bool g_have_fail;
 static interp_result g_last_fail_res;
 static const char *kind_name (int k) {
 	static const char *n[] = { "none", "deadlock", "livelock", "budget", "crash", "race", "freed", "deadstack", "oracle", "replaydiv" };
@@ -113,7 +114,7 @@ static bool run_one (const std::vector<uint8_t> &tape, bool count) {
 		}
 	}
 	if (owned && !sup) {
-		g_last_fail = tape;
+		g_last_fail = tape; g_have_fail = true;
 		g_last_fail_res = r;
 		return false;
 	}
@@ -192,7 +193,7 @@ int main (int argc, char **argv) {
 
 	std::string fail_dump, fail_trace_hex;
 	int deterministic = 0;
-	if (!ok && !g_last_fail.empty ()) {
+	if (!ok && g_have_fail) {
 		static char d[1 << 16];
 		interp_result r;
 		for (int k = 0; k < 3; k++) {
